@@ -93,7 +93,7 @@ def parse_tlc_log(text):
 
 
 def tlc_gen_replay(tag, module, consts, invariants, workers=None, timeout_s=1800, also_unopt=False,
-                   replay_workers=None, init="GInit", nxt="GNext"):
+                   replay_workers=None, init="GInit", nxt="GNext", facts=False):
     """Run TLC on `module` with a generated cfg; pipe stdout into `vharness replay`.
     Returns (tlcinfo, stats, violations)."""
     d = os.path.join(WORK, tag)
@@ -110,6 +110,8 @@ def tlc_gen_replay(tag, module, consts, invariants, workers=None, timeout_s=1800
               "--workers", str(replay_workers)]
     if also_unopt:
         rp_cmd.append("--also-unopt")
+    if facts:
+        rp_cmd += ["--facts", os.path.join(d, "facts.ndjson")]
     t0 = time.time()
     tlc = subprocess.Popen(tlc_cmd, cwd=SPEC, stdout=subprocess.PIPE, stderr=subprocess.STDOUT, env=env)
     rp = subprocess.Popen(rp_cmd, cwd=d, stdin=tlc.stdout, stdout=subprocess.PIPE, stderr=subprocess.STDOUT, text=True)
@@ -129,6 +131,12 @@ def tlc_gen_replay(tag, module, consts, invariants, workers=None, timeout_s=1800
         raise ToolError("TLC reported an error in stage %s: %s" % (tag, info["errors"][:3]))
     stats = json.load(open(os.path.join(d, "stats.json")))
     viols = [json.loads(l) for l in open(os.path.join(d, "viol.ndjson"))]
+    if facts:
+        fv, fst = validate_facts(tag, os.path.join(d, "facts.ndjson"))
+        viols += fv
+        stats["facts_events"] = fst["lines"]
+        stats["facts_patterns_checked"] = fst["compared"]
+        info["distinct"] += fst["states"]
     log("stage %s: %d states, %d behaviours, %d cases, mismatches %s, %.1fs" % (
         tag, info["distinct"], stats["behaviours"], stats["cases"], stats["mismatches"], info["wall_s"]))
     return info, stats, viols
@@ -448,6 +456,34 @@ def sweep_unicode(tag):
         open(f, "w").write("\n".join([head] + part) + "\n")
         files.append(f)
     return d, st, files
+
+
+def validate_facts(tag, path, shards=12):
+    """FactsTrace.tla over a file of facts events (obligations of the compile-time facts + Engine.tla lowering)."""
+    lines = open(path).read().splitlines()
+    if not lines:
+        return [], {"lines": 0, "compared": 0, "states": 0}
+    files = []
+    nsh = max(1, min(shards, len(lines) // 25))
+    per = (len(lines) + nsh - 1) // nsh
+    for i in range(nsh):
+        part = lines[i * per:(i + 1) * per]
+        if part:
+            f = "%s.shard%02d" % (path, i)
+            open(f, "w").write("\n".join(part) + "\n")
+            files.append(f)
+    tt, mm = parallel_trace_specs(tag + "_facts", files, "FactsTrace.tla", "FactsTrace.cfg")
+    viols, seen = [], set()
+    for (f, line, kind, info) in mm:
+        ev = json.loads(open(f).read().splitlines()[line - 1])
+        key = (kind, cps_s(ev["pat"]), cps_s(ev["flags"]), json.dumps(info.get("fact") if isinstance(info, dict) else None))
+        if key in seen:
+            continue
+        seen.add(key)
+        viols.append({"kind": kind, "pat_s": cps_s(ev["pat"]), "flags": cps_s(ev["flags"]), "x": ev["xpath"],
+                      "s_s": cps_s(info.get("input", [])) if isinstance(info, dict) else "", "call": "compile-time fact",
+                      "expected": info, "observed": ev["facts"], "cut": 0})
+    return viols, tt
 
 
 def sweep_classes(tag, seed, nrand, full_limit):
